@@ -81,12 +81,15 @@ pub fn meta_event<R: Read + Seek>(r: &Mp4Reader<R>) -> Value {
 
 /// open `bytes` (against `init` when given); Err carries the event describing the failure
 pub fn open_reader(bytes: &[u8], init: Option<&[u8]>) -> std::result::Result<Mp4Reader<Sparse>, Value> {
-    open_reader_total(bytes, init, bytes.len() as u64)
+    open_reader_total(bytes, init, bytes.len() as u64, None)
 }
+/// `parent_calls`: calls made on the reader of `init` BEFORE the segment reader is derived from it
+/// (their results are not recorded: the derived reader's answers must not depend on them)
 pub fn open_reader_total(
     bytes: &[u8],
     init: Option<&[u8]>,
     total: u64,
+    parent_calls: Option<&Vec<Value>>,
 ) -> std::result::Result<Mp4Reader<Sparse>, Value> {
     let fail = |r: std::result::Result<Error, String>| match r {
         Ok(e) => json!({"e":"open","res":err_class(&e),"msg":e.to_string(),"tracks":[]}),
@@ -99,11 +102,20 @@ pub fn open_reader_total(
             Err(p) => Err(fail(Err(p))),
         },
         Some(ib) => {
-            let base = match guarded(|| Mp4Reader::read_header(Sparse::from_vec(ib.to_vec()), ib.len() as u64)) {
+            let mut base = match guarded(|| Mp4Reader::read_header(Sparse::from_vec(ib.to_vec()), ib.len() as u64)) {
                 Ok(Ok(r)) => r,
                 Ok(Err(e)) => return Err(fail(Ok(e))),
                 Err(p) => return Err(fail(Err(p))),
             };
+            for c in parent_calls.map(|v| v.as_slice()).unwrap_or(&[]) {
+                let t = c["t"].as_u64().unwrap_or(0) as u32;
+                let k = c["k"].as_u64().unwrap_or(0) as u32;
+                let _ = match c["op"].as_str().unwrap_or("") {
+                    "read" => guarded(|| base.read_sample(t, k).map(|_| ())),
+                    "offset" => guarded(|| base.sample_offset(t, k).map(|_| ())),
+                    _ => guarded(|| base.sample_count(t).map(|_| ())),
+                };
+            }
             match guarded(|| base.read_fragment_header(Sparse::from_vec(bytes.to_vec()), bytes.len() as u64)) {
                 Ok(Ok(r)) => Ok(r),
                 Ok(Err(e)) => Err(fail(Ok(e))),
@@ -124,7 +136,7 @@ pub fn run_case(case: &Value, out: &mut Out) {
     out.ev(json!({"e":"file","img":img_sparse(&bytes, total),"has_init":init.is_some(),
         "init": init.as_ref().map(|b| img_of(b)).unwrap_or(json!({})),
         "expect_ok": case["expect_ok"].as_bool().unwrap_or(false)}));
-    let mut reader = match open_reader_total(&bytes, init.as_deref(), total) {
+    let mut reader = match open_reader_total(&bytes, init.as_deref(), total, case["parent_calls"].as_array()) {
         Ok(r) => r,
         Err(ev) => {
             out.ev(ev);
